@@ -294,7 +294,7 @@ Definition t_tuple_case (ix : expr) (tt : ty) : outcome ty :=
   match ix with
   | EInt i => match tt with
               | TyTup ts => if (0 <=? i)%Z then
-                              match nth_error ts (Z.to_nat i) with Some t => Ok t | None => Err E_TYPE end
+                              match nth_error ts (zidx ts i) with Some t => Ok t | None => Err E_TYPE end
                             else Err E_TYPE
               | _ => Err E_TYPE
               end
@@ -407,7 +407,7 @@ Definition v_tuple_case (f : nat) (en : env) (ix : expr) (tv : value) : outcome 
   match ix with
   | EInt i => match tv with
               | VTup l => if (0 <=? i)%Z then
-                            match nth_error l (Z.to_nat i) with Some el => value_of f en el | None => Err E_TYPE end
+                            match nth_error l (zidx l i) with Some el => value_of f en el | None => Err E_TYPE end
                           else Err E_TYPE
               | _ => Err E_TYPE
               end
@@ -620,7 +620,7 @@ Lemma tuple_case_tres ix tt : goodb tt = true -> tres (t_tuple_case ix tt).
 Proof.
   intros G. destruct ix; simpl; auto. destruct tt; simpl; auto.
   destruct (0 <=? z)%Z; simpl; auto.
-  destruct (nth_error l (Z.to_nat z)) eqn:E; simpl; auto.
+  destruct (nth_error l (zidx l z)) eqn:E; simpl; auto.
   apply nth_error_In in E. simpl in G. rewrite forallb_forall in G. auto.
 Qed.
 
@@ -1020,7 +1020,9 @@ Lemma tuple_case_sound f2 ix l ts T :
 Proof.
   intros IH G Hl H. destruct ix; try discriminate. simpl in *.
   destruct (0 <=? z)%Z; try discriminate.
-  destruct (nth_error ts (Z.to_nat z)) as [t|] eqn:E; try discriminate.
+  assert (HL : List.length l = List.length ts) by (clear - Hl; induction Hl; simpl; congruence).
+  assert (Hz : zidx l z = zidx ts z) by (unfold zidx; rewrite HL; reflexivity). rewrite Hz.
+  destruct (nth_error ts (zidx ts z)) as [t|] eqn:E; try discriminate.
   inversion H; subst t.
   destruct (Forall2_nth _ _ _ _ _ Hl E) as [el [-> Hel]].
   apply elem_typed_value; auto.
